@@ -14,6 +14,7 @@ REPO = os.environ.get("VERIF_REPO", "/repo")
 BUILD = os.path.join(ROOT, "build")
 HARNESS = os.path.join(ROOT, "harness")
 NCPU = min(16, os.cpu_count() or 4)
+REPLAYS = os.path.join(os.environ["VERIF_EVIDENCE_DIR"], "replays") if os.environ.get("VERIF_EVIDENCE_DIR") else os.path.join(ROOT, "replays")
 
 sys.path.insert(0, ROOT)
 
@@ -222,6 +223,8 @@ SAN_ENV = {
     "MALLOC_PERTURB_": "0",
 }
 
+VALGRIND = ("valgrind", "-q", "--error-exitcode=0", "--undef-value-errors=yes", "--track-origins=no", "--leak-check=no", "--num-callers=12")
+
 def classify_death(rc, err):
     """violation kind from exit status + stderr of a dead worker"""
     m = re.search(r"ERROR: AddressSanitizer: ([A-Za-z0-9_-]+)", err)
@@ -289,11 +292,11 @@ class StageResult:
         self.harness_failures = []
         self.hangs = []
 
-def run_range(exe, margs, lo, hi, env, res, lock, timeout, label):
+def run_range(exe, margs, lo, hi, env, res, lock, timeout, label, prefix=()):
     """run cases lo..hi in one or more worker processes, restarting after a death"""
     cur = lo
     while cur < hi:
-        cmd = [exe] + margs + ["--from", str(cur), "--to", str(hi)]
+        cmd = list(prefix) + [exe] + margs + ["--from", str(cur), "--to", str(hi)]
         errf = os.path.join(os.path.dirname(exe), "stderr.%d.%d" % (os.getpid(), threading.get_ident()))
         with open(errf, "w") as ef:
             p = subprocess.Popen(cmd, stdout=subprocess.PIPE, stderr=ef, text=True, env=env, errors="replace")
@@ -379,7 +382,7 @@ def run_range(exe, margs, lo, hi, env, res, lock, timeout, label):
                 res.events.append(open_ev)
         cur = open_ev.idx + 1
 
-def run_stage(cfgname, margs, ncases, seed, timeout=120, nworkers=None, extra_env=None, first=0):
+def run_stage(cfgname, margs, ncases, seed, timeout=120, nworkers=None, extra_env=None, first=0, prefix=()):
     exe = build(cfgname)
     env = dict(os.environ)
     env.update(SAN_ENV)
@@ -400,14 +403,14 @@ def run_stage(cfgname, margs, ncases, seed, timeout=120, nworkers=None, extra_en
                 lo, hi = q.get_nowait()
             except queue.Empty:
                 return
-            run_range(exe, margs, lo, hi, env, res, lock, timeout, cfgname)
+            run_range(exe, margs, lo, hi, env, res, lock, timeout, cfgname, prefix)
     ths = [threading.Thread(target=worker) for _ in range(min(nworkers, q.qsize()))]
     [t.start() for t in ths]
     [t.join() for t in ths]
     # re-run hangs once, alone, with a generous timeout; a second timeout is a hang verdict
     for ev, cmd in res.hangs:
         r2 = StageResult()
-        run_range(exe, margs, ev.idx, ev.idx + 1, env, r2, threading.Lock(), timeout * 4, cfgname + ":rerun")
+        run_range(exe, margs, ev.idx, ev.idx + 1, env, r2, threading.Lock(), timeout * 4, cfgname + ":rerun", prefix)
         if r2.hangs:
             ev.fails.append((ev.keyprefix + "|hang", "case did not finish within %ds, twice (alone the second time)" % (timeout * 4)))
             ev.done = True
@@ -440,7 +443,7 @@ def load_known():
 from props import PROPS  # noqa: E402
 
 def write_replay(pid, stage, ev, key, msg, seed):
-    d = os.path.join(ROOT, "replays", pid)
+    d = os.path.join(REPLAYS, pid)
     os.makedirs(d, exist_ok=True)
     name = hashlib.sha1(key.encode()).hexdigest()[:12] + ".json"
     p = os.path.join(d, name)
@@ -451,7 +454,7 @@ def write_replay(pid, stage, ev, key, msg, seed):
 def check(pid, tier, seed):
     t0 = time.time()
     prop = PROPS[pid]
-    shutil.rmtree(os.path.join(ROOT, "replays", pid), ignore_errors=True)
+    shutil.rmtree(os.path.join(REPLAYS, pid), ignore_errors=True)
     known, _ = load_known()
     evaluations = 0
     classes = set()
@@ -476,7 +479,8 @@ def check(pid, tier, seed):
         if st.get("runner"):
             res = st["runner"](st, tier, seed, n)
         else:
-            res = run_stage(st["cfg"], margs, n, seed, timeout=st.get("timeout", 180), extra_env=st.get("env"), nworkers=st.get("workers"))
+            prefix = VALGRIND if st.get("valgrind") else ()
+            res = run_stage(st["cfg"], margs, n, seed, timeout=st.get("timeout", 180), extra_env=st.get("env"), nworkers=st.get("workers"), prefix=prefix)
         st = dict(st)
         st["args"] = margs
         builds.append(st["cfg"])
@@ -531,8 +535,9 @@ def check(pid, tier, seed):
     }
     if prop.get("exhaustive"):
         ev["coverage"]["exhaustive"] = True
-    os.makedirs(os.path.join(ROOT, "evidence"), exist_ok=True)
-    json.dump(ev, open(os.path.join(ROOT, "evidence", pid + ".json"), "w"), indent=1)
+    evdir = os.environ.get("VERIF_EVIDENCE_DIR") or os.path.join(ROOT, "evidence")
+    os.makedirs(evdir, exist_ok=True)
+    json.dump(ev, open(os.path.join(evdir, pid + ".json"), "w"), indent=1)
     for k, (desc, cnt) in sorted(known_hit.items()):
         print("KNOWN-FINDING: property=%s %s (%d cases) :: %s" % (pid, k, cnt, desc))
     for k, (msg, rp, cfgn) in sorted(violations.items()):
